@@ -223,12 +223,21 @@ Definition rename_genes (d : list (Z * Z)) (s : st) : st :=
   let '(s1, rem, tou) := rename_loop d s [] [] in
   drop_genes rem (repair (rename_rules d (fun r => existsb (fun g => gback s g r) tou) s1)).
 
+(* the repaired rename_genes (fixes/rename-genes-chain.patch; /repo is unchanged): after model.repair() a gene
+   marked for removal goes only if no reaction lists it any more.  The check probes which of the two the
+   implementation under test is and uses that one. *)
+Definition rename_genes_fixed (d : list (Z * Z)) (s : st) : st :=
+  let '(s1, rem, tou) := rename_loop d s [] [] in
+  let s3 := repair (rename_rules d (fun r => existsb (fun g => gback s g r) tou) s1) in
+  drop_genes (filter (no_back s3) rem) s3.
+
 Inductive op :=
 | SetRule (r : Z) (t : rl)
 | AddRxn (r : Z)
 | RemoveRxn (r : Z) (orphans : bool)
 | RemoveGenes (l : list Z) (remove_reactions : bool)
 | RenameGenes (d : list (Z * Z))
+| RenameGenesFixed (d : list (Z * Z))
 | Repair.
 
 Definition step (s : st) (o : op) : st * res :=
@@ -238,6 +247,7 @@ Definition step (s : st) (o : op) : st * res :=
   | RemoveRxn r orphans => (remove_rxn r orphans s, Ok)
   | RemoveGenes l rr => remove_genes l rr s
   | RenameGenes d => (rename_genes d s, Ok)
+  | RenameGenesFixed d => (rename_genes_fixed d s, Ok)
   | Repair => (repair s, Ok)
   end.
 
